@@ -41,38 +41,44 @@ def rotate (w h : Nat) (rot : Rotation) (px py : Int) : Option (Int × Int) :=
       some ((w : Int) - 1 - px, (h : Int) - 1 - py) else none
   | .r270 => if inI32 ((h : Int) - 1 - px) then some (py, (h : Int) - 1 - px) else none
 
-/-- `graphics.rs::set_pixel` on a buffer slice; `bm` is the drawn colour's `bitmask(bwrbit, ·)`.
-    Returns the buffer and whether the call panicked (on a panic in the second plane the first
-    plane's byte has already been written, exactly as in the Rust). -/
-def setPixel (buf : Array UInt8) (w h : Nat) (rot : Rotation) (k : ColorKind)
-    (bm : Nat → UInt8 × Nat) (px py : Int) : Array UInt8 × Bool :=
-  match rotate w h rot px py with
-  | none => (buf, true)
-  | some (x, y) =>
-    if x < 0 ∨ x ≥ w ∨ y < 0 ∨ y ≥ h then (buf, false) else
-    let index := x.toNat * k.bpp / 8 + y.toNat * lineBytes w k.bpp
-    let mask := (bm x.toNat).1
-    let bits := (bm x.toNat).2
-    if k.planes = 2 then
-      if h1 : index < buf.size then
-        let buf1 := buf.set index ((buf[index] &&& mask) ||| UInt8.ofNat (bits % 256))
-        let index2 := index + buf.size / 2
-        if h2 : index2 < buf1.size then
-          (buf1.set index2 ((buf1[index2] &&& mask) ||| UInt8.ofNat (bits / 256 % 256)), false)
-        else (buf1, true)
-      else (buf, true)
-    else
-      if h1 : index < buf.size then
-        (buf.set index ((buf[index] &&& mask) ||| UInt8.ofNat (bits % 256)), false)
-      else (buf, true)
+/-- the tail of `set_pixel`: the masked write(s) at `index` (and `index + len/2` for split
+    buffers).  Returns the buffer and whether an index was out of range (panic); on a panic in
+    the second plane the first plane's byte has already been written, exactly as in the Rust. -/
+def writePix (buf : Array UInt8) (index planes : Nat) (mask : UInt8) (bits : Nat) : Array UInt8 × Bool :=
+  if planes = 2 then
+    if h1 : index < buf.size then
+      let buf1 := buf.set index ((buf[index] &&& mask) ||| UInt8.ofNat (bits % 256))
+      if h2 : index + buf.size / 2 < buf1.size then
+        (buf1.set (index + buf.size / 2)
+          ((buf1[index + buf.size / 2] &&& mask) ||| UInt8.ofNat (bits / 256 % 256)), false)
+      else (buf1, true)
+    else (buf, true)
+  else
+    if h1 : index < buf.size then
+      (buf.set index ((buf[index] &&& mask) ||| UInt8.ofNat (bits % 256)), false)
+    else (buf, true)
 
 /-- `size()` of both display types -/
 def displaySize (w h : Nat) : Rotation → Nat × Nat
   | .r0 | .r180 => (w, h)
   | .r90 | .r270 => (h, w)
 
-/-- `VarDisplay::buffer_size` -/
-def varBufferSize (w h : Nat) (k : ColorKind) : Nat := h * lineBytes w (k.bpp * k.planes)
+/-- `graphics.rs::set_pixel` on a buffer slice; `bm` is the drawn colour's `bitmask(bwrbit, ·)`.
+    Returns the buffer and whether the call panicked.  Points outside the rotated bounds are
+    rejected before the rotation arithmetic (fix faca873); the second range check of the Rust is
+    kept as it is. -/
+def setPixel (buf : Array UInt8) (w h : Nat) (rot : Rotation) (k : ColorKind)
+    (bm : Nat → UInt8 × Nat) (px py : Int) : Array UInt8 × Bool :=
+  if px < 0 ∨ px ≥ (displaySize w h rot).1 ∨ py < 0 ∨ py ≥ (displaySize w h rot).2 then (buf, false) else
+  match rotate w h rot px py with
+  | none => (buf, true)
+  | some (x, y) =>
+    if x < 0 ∨ x ≥ w ∨ y < 0 ∨ y ≥ h then (buf, false) else
+    writePix buf (x.toNat * k.bpp / 8 + y.toNat * lineBytes w k.bpp) k.planes
+      (bm x.toNat).1 (bm x.toNat).2
+
+/-- `VarDisplay::buffer_size` (fix 9b3cce6: every plane with its own padded lines) -/
+def varBufferSize (w h : Nat) (k : ColorKind) : Nat := h * lineBytes w k.bpp * k.planes
 
 /-- `VarDisplay::new`: accepted iff the slice is at least `buffer_size` long -/
 def varNewOk (w h : Nat) (k : ColorKind) (len : Nat) : Bool := !(varBufferSize w h k > len)
